@@ -1123,7 +1123,11 @@ impl<K: EnrKey> Encodable for Enr<K> {
 
 impl<K: EnrKey> Decodable for Enr<K> {
     fn decode(buf: &mut &[u8]) -> Result<Self, DecoderError> {
-        if buf.len() > MAX_ENR_SIZE {
+        // The size limit applies to the record itself (its RLP item), not to whatever else
+        // the buffer holds after it.
+        let mut peek = *buf;
+        let header = Header::decode(&mut peek)?;
+        if (buf.len() - peek.len()) + header.payload_length > MAX_ENR_SIZE {
             return Err(DecoderError::Custom("enr exceeds max size"));
         }
 
